@@ -60,8 +60,10 @@ func (w *verifRW) Write(b []byte) (int, error) {
 
 type verifFailingBody struct{}
 
-func (verifFailingBody) Read([]byte) (int, error) { return 0, errors.New("connection reset while reading body") }
-func (verifFailingBody) Close() error             { return nil }
+func (verifFailingBody) Read([]byte) (int, error) {
+	return 0, errors.New("connection reset while reading body")
+}
+func (verifFailingBody) Close() error { return nil }
 
 // VerifC11APIHandlers: the two HTTP registration handlers on requests with any
 // method, declared length below / at / above the minimum, any of: empty body,
